@@ -73,13 +73,21 @@ def run(rep, tier, seed):
                         rules[k] = gen_rule(rnd, pd, used[k], kinds=KINDS, direction=rnd.choice([DI.BIDIRECTIONAL, d]))
                 nrs = [n_rule(r) for r in rules]
                 rep.hist['manager:re-provisioned'] = rep.hist.get('manager:re-provisioned', 0) + 1
-            out = obs_bits(with_timeout(lambda: cm.compress(Buffer(pkt, len(pkt) * 8), direction=d, match_strategy=strat)))
+            res_ = with_timeout(lambda: cm.compress(Buffer(pkt, len(pkt) * 8), direction=d, match_strategy=strat))
+            out = obs_bits(res_)
+            from schc_run import bytes_cm_compress, bytes_cm_decompress
+            bytes_cm_compress(b, 'manager-compress', stack, pkt, d, strat == MatchStrategy.FIRST, rules, res_)
             line = ' '.join(['S', 'cmcompressp', stack, tb(orig), DIRC[d], 'F' if strat == MatchStrategy.FIRST else 'B'] + rules_tokens(nrs))
             b.add('manager-compress:%s:%s' % (stack, strat.value), line, out, parse_model_bits, None,
                   dict(layer='schc', op='cmcompress', stack=stack, packet=pkt.hex(), rules=nrs, direction=DIRC[d], strategy=strat.value), key=line)
             if out[0] == 'OK' and isinstance(out[1], str):
                 s = out[1]
-                o2 = obs_bits(with_timeout(lambda: cm.decompress(mk(s, rnd.choice([L, R])), direction=d)))
+                sb_ = mk(s, rnd.choice([L, R]))
+                from core import raw
+                rawtok = raw(sb_)
+                res2_ = with_timeout(lambda: cm.decompress(sb_, direction=d))
+                o2 = obs_bits(res2_)
+                bytes_cm_decompress(b, 'manager-roundtrip', rawtok, d, rules, res2_)
                 fails = [] if o2 == ('OK', orig) else ['manager round trip (%s) gives %s instead of the original %d-bit packet' % (strat.value, str(o2)[:100], len(orig))]
                 line = ' '.join(['S', 'cmdecompress', tb(s), DIRC[d]] + rules_tokens(nrs))
                 b.add('manager-roundtrip:%s:%s' % (stack, strat.value), line, o2, parse_model_bits, fails,
